@@ -235,6 +235,7 @@ pub struct Engine {
     pub concrete_failures: Vec<String>,
     pub samples: Vec<String>,
     pub notes: Vec<String>,
+    pub sample_smt: Option<String>,
     solver: Option<Solver>,
     solver_alt: Option<Solver>,
     memo: HashMap<String, (Verdict, Option<BTreeMap<String, String>>)>,
@@ -291,6 +292,7 @@ impl Engine {
             concrete_failures: Vec::new(),
             samples: Vec::new(),
             notes: Vec::new(),
+            sample_smt: None,
             solver: None,
             solver_alt: None,
             memo: HashMap::new(),
@@ -1622,7 +1624,16 @@ pub fn prove(label: &str, b: B) -> Proof {
             }
         }
         match verdict {
-            Verdict::Unsat => { e.stats.discharged_solver += 1; e.path_nontrivial = true; Proof::Solver }
+            Verdict::Unsat => {
+                e.stats.discharged_solver += 1; e.path_nontrivial = true;
+                if e.sample_smt.is_none() {
+                    let mut v: Vec<&B> = pc.iter().collect();
+                    v.push(&b);
+                    let (t, _) = e.emit(&v, true, 0, None);
+                    if t.len() < 6000 { e.sample_smt = Some(format!("; obligation '{}' (unsat = discharged)\n{}(check-sat)", label, t)); }
+                }
+                Proof::Solver
+            }
             Verdict::Unknown => { e.stats.undecided += 1; e.undecided_labels.push(label.to_string()); Proof::Undecided }
             Verdict::Sat => {
                 e.stats.failed += 1;
@@ -1959,6 +1970,7 @@ pub fn install_panic_hook() {
 }
 
 pub struct Report {
+    pub sample_smt: Option<String>,
     pub var_names: Vec<String>,
     pub stats: Stats,
     pub candidates: Vec<Candidate>,
@@ -2018,7 +2030,7 @@ pub fn explore(cfg: Config, body: &mut dyn FnMut()) -> Report {
     let mut g = lock();
     let e = g.take().unwrap();
     let var_names: Vec<String> = e.var_names.values().filter(|n| !n.contains('(') && !n.contains('#')).cloned().collect();
-    Report { var_names, stats: e.stats, candidates: e.candidates, control_failures: e.control_failures, undecided: e.undecided_labels, samples: e.samples, notes: e.notes, errors }
+    Report { sample_smt: e.sample_smt, var_names, stats: e.stats, candidates: e.candidates, control_failures: e.control_failures, undecided: e.undecided_labels, samples: e.samples, notes: e.notes, errors }
 }
 
 pub struct ConcreteReport {
